@@ -47,6 +47,9 @@ class Run:
         self.sched = sched = build(spec, lab.env)
         self.out = lab.tap("out")
         sched.out = self.out
+        # the next hop may look back at the scheduler the moment a packet is handed to it (back-pressure, accounting): the packet
+        # being handed over has left - it is neither waiting nor in transmission any more
+        self.out.on_put = lambda rec: self._counters("C12.counters/handoff", at_handoff=True)
         self.entry = lab.tap("in", sched)
         self.flows = sorted({w[1] for w in spec["wl"]})
         self.samples = []       # (step, now, id(packet_in_service) or None)
@@ -65,6 +68,11 @@ class Run:
             monitor(self)
 
     def _after_step(self):
+        self._counters("C12.counters/flow")
+        self.counter_checks += 1
+        self.samples.append((self.lab.steps, self.lab.env.now, self.sched.packet_in_service))
+
+    def _counters(self, sig, at_handoff=False):
         lab, sched = self.lab, self.sched
         # (c) counters == packets of that flow entered and not exited (waiting or in transmission)
         ent = {}
@@ -86,13 +94,11 @@ class Run:
             tot += n
             if sched.size(f) != n or sched.byte_size(f) != b:
                 lab.flag("C12.counters", f"flow {f}: size()={sched.size(f)} byte_size()={sched.byte_size(f)} but {n} packets / {b} "
-                                         f"bytes of it are waiting or in transmission (t={lab.env.now})", "C12.counters/flow")
+                                         f"bytes of it are waiting or in transmission (t={lab.env.now}"
+                                         f"{', read by the next hop while a packet is handed to it' if at_handoff else ''})", sig)
                 return
         if sched.total_packets != tot:
             lab.flag("C12.counters", f"total_packets={sched.total_packets}, {tot} held", "C12.counters/total")
-        self.counter_checks += 1
-        p = sched.packet_in_service
-        self.samples.append((lab.steps, lab.env.now, p))
 
     def go(self, until=inf):
         return self.lab.run(until=until)
